@@ -285,11 +285,12 @@ def run(run):
         run.missing("C06.P1", "Span::endorse_to_arcs_and_circles")
     else:
         ex = Expr(prog, ea)
-        pushes = [(bid, t) for bid, t in prog.calls(ea) if Program.callee_name(t).endswith("Vec::<T, A>::push")]
+        # every fragment span that this function constructs (pushed to a vector or returned in a `vec![..]`)
+        pushes = [(bid, t) for bid, t in prog.calls(ea) if Program.callee_name(t).endswith("FragmentSpan::new")]
         n_ok = 0
         for bid, t in pushes:
-            v = strip(ex.operand(t["args"][1]))
-            ok = v[0] == "call" and v[1].endswith("FragmentSpan::new")
+            v = ("call", Program.callee_name(t), tuple(ex.operand(a) for a in t["args"]), bid)
+            ok = True
             detail = expr_str(v)[:120]
             if ok:
                 fr = v[2][1]
